@@ -25,7 +25,7 @@ CONSTANTS Cap,           \* packets per batch (real: 100)
           Defect         \* "none" = as coded now.  Two repaired defects are kept as switches so that the model checker SHOWS what they break:
                          \*   "offset-before-skip": the offset attached to a packet is read before the filter skip loop (finding 1)
                          \*   "drop-batch-on-pipe-skip-eof": a pipe ending inside a skipped payload discards the batch (finding 8)
-VARIABLES stream, filter, skip, src, cut,         \* the case: packets [link, size], filter (0 = none, else link), payload skipped?, "file"|"pipe", input length
+VARIABLES stream, filter, skip, src, cut,         \* the case: packets [link, fee, size], filter [k, v] (as in Scanner), payload skipped?, "file"|"pipe", input length
           pos, tracked,                           \* reader position; MemPosTracker
           pc, cur,                                \* program counter; the RDH being processed [link, size, at (true offset where it was read)]
           batch, sent,                            \* current batch; batches sent so far (sequence of sequences of [off, at, payload])
@@ -38,7 +38,14 @@ OffOf(s, k) == IF k = 1 THEN 0 ELSE OffOf(s, k - 1) + s[k - 1].size
 \* the packet whose RDH starts at byte p of the (well-framed) stream, 0 if none
 PktAt(p) == IF \E k \in 1..Len(stream) : OffOf(stream, k) = p THEN CHOOSE k \in 1..Len(stream) : OffOf(stream, k) = p ELSE 0
 
-RInit == /\ pos = 0 /\ tracked = 0 /\ pc = "load" /\ cur = [link |-> 0, size |-> 0, at |-> 0] /\ batch = << >> /\ sent = << >> /\ cdpoff = 0
+\* is_rdh_filter_target (input_scanner.rs): link id equal / FEE id equal / FEE ids equal under the mask 0x703F (layer and stave bits)
+Mask703F(fee) == (((fee \div 4096) % 8) * 4096) + (fee % 64)
+RMatch(c, f) == CASE f.k = "none" -> TRUE
+                  [] f.k = "link" -> c.link = f.v
+                  [] f.k = "fee" -> c.fee = f.v
+                  [] f.k = "stave" -> Mask703F(c.fee) = Mask703F(((f.v \div 64) * 4096) + (f.v % 64))      \* the option L<l>_<s> is turned into the FEE id l << 12 | s
+NoCur == [link |-> 0, fee |-> 0, size |-> 0, at |-> 0]
+RInit == /\ pos = 0 /\ tracked = 0 /\ pc = "load" /\ cur = NoCur /\ batch = << >> /\ sent = << >> /\ cdpoff = 0
          /\ rseen = 0 /\ rfilt = 0 /\ rpay = 0 /\ rerrs = << >> /\ rfatal = FALSE
 
 Avail == cut - pos                     \* bytes still readable (negative after a seek beyond the end of a file)
@@ -48,7 +55,7 @@ Finish == /\ sent' = IF batch = << >> THEN sent ELSE Append(sent, batch)
 LoadRdh == /\ pc = "load"
            /\ IF Avail < 64 \/ PktAt(pos) = 0
                 THEN Finish /\ UNCHANGED << pos, tracked, cur, cdpoff, rseen, rfilt, rpay, rerrs, rfatal >>      \* end of input (also inside an RDH): UnexpectedEof ends the batch
-                ELSE /\ cur' = [link |-> stream[PktAt(pos)].link, size |-> stream[PktAt(pos)].size, at |-> pos]
+                ELSE /\ cur' = [link |-> stream[PktAt(pos)].link, fee |-> stream[PktAt(pos)].fee, size |-> stream[PktAt(pos)].size, at |-> pos]
                      /\ pos' = pos + 64 /\ rseen' = rseen + 1 /\ pc' = "check"
                      /\ UNCHANGED << tracked, batch, sent, cdpoff, rfilt, rpay, rerrs, rfatal >>
 CheckOffset == /\ pc = "check"
@@ -59,8 +66,8 @@ CheckOffset == /\ pc = "check"
 SkipBytes(n) == pos' = IF src = "file" THEN pos + n ELSE (IF Avail >= n THEN pos + n ELSE cut)
 ShortOnPipe(n) == src = "pipe" /\ Avail < n
 Filter == /\ pc = "filter"
-          /\ IF filter = 0 \/ cur.link = filter
-               THEN /\ rfilt' = (IF filter # 0 THEN rfilt + 1 ELSE rfilt) /\ rpay' = rpay + cur.size - 64 /\ pc' = "payload"
+          /\ IF RMatch(cur, filter)
+               THEN /\ rfilt' = (IF filter.k # "none" THEN rfilt + 1 ELSE rfilt) /\ rpay' = rpay + cur.size - 64 /\ pc' = "payload"
                     /\ UNCHANGED << pos, tracked, batch, sent >>
                ELSE \* seek_to_next_rdh in the skip loop: an error (pipe ended inside the skipped payload: InvalidInput) ends the batch, the packets read so far are kept
                     /\ tracked' = tracked + cur.size
